@@ -179,11 +179,9 @@ func genSegReader(r *rand.Rand, n int, tier string) []string {
 		var ops []string
 		no := 3 + r.Intn(8)
 		last := r.Intn(nb)
-		// which blocks of file A can fail (conservatively): the damaged chunk, and everything behind a truncation
-		mayFail := func(b int) bool {
-			return mut != "none" && (b == dmg || (strings.HasPrefix(mut, "cut") && b > dmg))
-		}
-		curA, taintA := -1, false // ghost of reader A: block recorded as loaded, failed attempt since
+		// a return to the block touched before a failed attempt is generated on purpose: the reader must load it again
+		// (before the repair of readBlock it served the overwritten buffers; for zstd blocks what it served then
+		// depended on the pool's history)
 		for i := 0; i < no; i++ {
 			b := r.Intn(nb)
 			switch r.Intn(6) {
@@ -211,22 +209,6 @@ func genSegReader(r *rand.Rand, n int, tier string) []string {
 			}
 			if rd == "B" {
 				op = strings.ToUpper(op[:1]) + op[1:]
-			} else {
-				// zstd blocks: after a failed attempt the decompression buffer may have been exchanged through the pool, so
-				// what a return to the block recorded as loaded serves depends on the pool's history — not generated
-				// (dictionary blocks: deterministic, generated, see known_findings)
-				if enc == "raw" && taintA && b == curA {
-					continue
-				}
-				switch {
-				case b == absent:
-					curA, taintA = -1, false
-				case b == curA:
-				case mayFail(b):
-					taintA = true
-				default:
-					curA, taintA = b, false
-				}
 			}
 			ops = append(ops, op)
 			last = b
